@@ -135,6 +135,17 @@ func (fr *frame) analyzeLoop(li *loopInfo) {
 				}
 				callee := c.StaticCallee()
 				if callee == nil {
+					if impls := vc.eng.fieldCallTargets(c); len(impls) > 0 {
+						for _, f := range impls {
+							if con := vc.eng.Contracts[f]; con != nil && con.ModGiven {
+								fr.modifiesKeys(con, li)
+								li.allocs = true
+							} else {
+								addEffect(vc.eng.Effects[f])
+							}
+						}
+						continue
+					}
 					li.havocAll = true
 					continue
 				}
